@@ -611,7 +611,7 @@ def expected_simple(sc, res):
             return e
         if op == "roundtrip":
             h = sc["bytes_hex"].lower()
-            return {"to_hex": h, "display": h, "debug": 'Hash("%s")' % h, "as_bytes": h, "as_slice": h,
+            return {"to_hex": h, "display": h, "display_specs_same": True, "debug": 'Hash("%s")' % h, "as_bytes": h, "as_slice": h,
                     "into_array": h, "back_same": True, "upper_same": True, "from_same": True}
         if op == "from_slice":
             b = bytes.fromhex(sc["bytes_hex"])
@@ -1028,6 +1028,28 @@ def fam_hex(rng):
             out.append({"kind": "hex", "op": "eq", "a_hex": good, "b_hex": bytes(b).hex()})
     for b in ("", good[:62], good + "00", good[2:]):
         out.append({"kind": "hex", "op": "eq", "a_hex": good, "b_hex": b})
+    # every single bit; differences that cancel or collide when the comparison folds words / lanes together
+    for pos in range(32):
+        for bit in range(1, 7):
+            b = bytearray(a)
+            b[pos] ^= 1 << bit
+            out.append({"kind": "hex", "op": "eq", "a_hex": good, "b_hex": bytes(b).hex()})
+    for stride in (1, 2, 4, 8, 16, 24):
+        for pos in (0, 3, 7):
+            if pos + stride < 32:
+                for delta in (0x01, 0x80, 0xFF):
+                    b = bytearray(a)
+                    b[pos] ^= delta
+                    b[pos + stride] ^= delta
+                    out.append({"kind": "hex", "op": "eq", "a_hex": good, "b_hex": bytes(b).hex()})
+    for rot in (1, 4, 8, 16, 24):
+        out.append({"kind": "hex", "op": "eq", "a_hex": good, "b_hex": bytes(a[rot:] + a[:rot]).hex()})
+    out.append({"kind": "hex", "op": "eq", "a_hex": good, "b_hex": bytes(reversed(a)).hex()})
+    out.append({"kind": "hex", "op": "eq", "a_hex": "00" * 32, "b_hex": "00" * 31 + "01"})
+    out.append({"kind": "hex", "op": "eq", "a_hex": "ff" * 32, "b_hex": "ff" * 32})
+    out.append({"kind": "hex", "op": "eq", "a_hex": "00" * 32, "b_hex": "80" + "00" * 31})
+    for n in (33, 40, 64):
+        out.append({"kind": "hex", "op": "eq", "a_hex": good, "b_hex": (good * 2)[:2 * n]})
     return out
 
 
